@@ -9,6 +9,7 @@ use std::marker::PhantomData;
 use std::os::fd::IntoRawFd;
 use std::os::unix::io::{AsRawFd, RawFd};
 
+use virtio_queue::QueueT;
 use vmm_sys_util::epoll::{ControlOperation, Epoll, EpollEvent, EventSet};
 use vmm_sys_util::event::EventNotifier;
 
@@ -210,6 +211,11 @@ where
 
         if (device_event as usize) < self.vrings.len() {
             let vring = &self.vrings[device_event as usize];
+            // A stopped vring (GET_VRING_BASE) is not processed: the event was reported before
+            // the vring was stopped.
+            if !vring.get_ref().get_queue().ready() {
+                return Ok(false);
+            }
             #[cfg(feature = "verif-hooks")]
             vhost::vhost_user::verif_hooks::hold("worker.pre_read", u64::from(device_event));
             let enabled = vring
